@@ -796,7 +796,15 @@ func (g *G) stmt(depth int, top bool) *Node {
 func (g *G) stmts(depth, n int, top bool) []*Node {
 	var out []*Node
 	for i := 0; i < n; i++ {
-		out = append(out, g.stmt(depth, top))
+		s := g.stmt(depth, top)
+		out = append(out, s)
+		// inside blocks too: close tag + inline HTML + open tag after a statement that ends in '}' (a definite StmtNop)
+		if !top && !g.O.NoHTML && !g.O.Formatter && g.inHeredoc == 0 && g.R.Chance(1, 14) && endsInBrace(s) {
+			html := g.R.Pick("<i>y</i>", "nested text", "c\nd\n", "<hr/>\r\n", "$z")
+			nop := &Node{Kind: "StmtNop", Parts: []interface{}{t("?>")}}
+			h := &Node{Kind: "StmtInlineHtml", Val: html, HasVal: true, Parts: []interface{}{tn(html), tn(g.R.Pick("<?php", "<?PHP")), tg("", GapNeedWS)}}
+			out = append(out, nop, h)
+		}
 	}
 	return out
 }
